@@ -100,6 +100,9 @@ def form_of(X, form):
         X[-1] = X[0]
     if form == "scaled_1e3":
         X = X * 1e3
+    if form == "readonly":            # the caller's arrays are not writeable (memory-mapped data, arrays shared between processes)
+        X = X.copy()
+        X.setflags(write=False)
     return X
 
 
@@ -112,7 +115,18 @@ def fit_case(case):
     Xin = form_of(Xc, form)
     # what the estimator is documented to see (float32 data is scored in float32: the affinity of the *given* data)
     Xeff = np.asarray(Xin) if form == "float32" else np.asarray(Xin, dtype=float)
+    if form == "numpy_scalars":       # hyperparameters read from an array / a configuration file are numpy scalars, not Python numbers
+        spec = {k: (np.int64(v_) if isinstance(v_, int) and not isinstance(v_, bool) else (np.float64(v_) if isinstance(v_, float) else v_)) for k, v_ in spec.items()}
+        if name == "Kauri":
+            spec.setdefault("max_clusters", np.int64(3))
+        else:
+            spec.setdefault("n_clusters", np.int64(3))
+            spec.setdefault("max_iter", np.int32(3))
+            spec.setdefault("learning_rate", np.float32(0.1))
     model, y, expect = C.build(name, spec, Xeff, seed)
+    if form == "readonly" and y is not None:
+        y = np.array(y, copy=True)
+        y.setflags(write=False)
     reconfigured = form == "reconfigured"
     if reconfigured:
         # scikit-learn protocol route: the estimator is built with the default configuration, USED once (fit + score), then given the
@@ -243,7 +257,7 @@ def explorers(tier, seed):
             n, d = shape
             ax = axes_for(name, n, d)
             base = {"random_state": seed}
-            for form in ("float64", "fortran", "int", "float32", "list", "zero_column", "constant_column", "duplicate_rows", "scaled_1e3"):
+            for form in ("float64", "fortran", "int", "float32", "list", "zero_column", "constant_column", "duplicate_rows", "scaled_1e3", "readonly", "numpy_scalars"):
                 cases.append((name, dict(base), shape, form, seed))
             if name in M.SPARSE and d >= 2:
                 # a never-varying feature receives an exactly zero gradient: with a strong penalty its weights (alone, as a singleton group,
@@ -260,6 +274,8 @@ def explorers(tier, seed):
                     cases.append((name, s, shape, "float64", seed))
                     if shape == SHAPES[-1]:
                         cases.append((name, s, shape, "reconfigured", seed))
+                        cases.append((name, s, shape, "readonly", seed))
+                        cases.append((name, s, shape, "numpy_scalars", seed))
             pairs = [(a, b) for a, b in COUPLED if a in ax and b in ax]
             if thorough:
                 pairs = list(itertools.combinations(ax, 2))
